@@ -154,6 +154,69 @@ theorem roundToDbl_exact (neg : Bool) (num den m : Nat) (E : Int) (hd : 0 < den)
   have e0 : (pickExp num den - pickExp num den).toNat = 0 := by omega
   rw [e0, Nat.pow_zero, Nat.mul_one]
 
+/-! ### correct rounding for every rational -/
+/-- `roundHalfEven q d` is a nearest integer to `q / d`, the even one on a tie -/
+theorem roundHalfEven_nearest (q d : Nat) (hd : 0 < d) :
+    2 * (roundHalfEven q d * d) ≤ 2 * q + d ∧ 2 * q ≤ 2 * (roundHalfEven q d * d) + d ∧
+      ((2 * (roundHalfEven q d * d) = 2 * q + d ∨ 2 * q = 2 * (roundHalfEven q d * d) + d) → roundHalfEven q d % 2 = 0) := by
+  have hq : d * (q / d) + q % d = q := Nat.div_add_mod q d
+  have hr : q % d < d := Nat.mod_lt _ hd
+  unfold roundHalfEven
+  simp only []
+  generalize q / d = k at hq ⊢
+  generalize q % d = r at hq hr ⊢
+  have e1 : (k + 1) * d = d * k + d := by rw [Nat.add_mul, Nat.one_mul, Nat.mul_comm]
+  have e0 : k * d = d * k := Nat.mul_comm _ _
+  generalize hP : d * k = P at hq e1 e0
+  by_cases h1 : 2 * r < d
+  · rw [if_pos h1, e0]; omega
+  · rw [if_neg h1]
+    by_cases h2 : 2 * r > d
+    · rw [if_pos h2, e1]; omega
+    · rw [if_neg h2]
+      by_cases h3 : k % 2 = 0
+      · rw [if_pos h3, e0]; omega
+      · rw [if_neg h3, e1]; omega
+
+theorem findExp_min (num den : Nat) : ∀ (fuel : Nat) (e : Int),
+    e ≤ findExp num den fuel e ∧ findExp num den fuel e ≤ e + fuel ∧
+      (findExp num den fuel e < e + fuel → qOf num den (findExp num den fuel e) < 9007199254740992) ∧
+      (∀ x, e ≤ x → x < findExp num den fuel e → 9007199254740992 ≤ qOf num den x) := by
+  intro fuel
+  induction fuel with
+  | zero => intro e; rw [findExp]; exact ⟨Int.le_refl _, by omega, by omega, by intro x h1 h2; omega⟩
+  | succ f ih =>
+    intro e
+    rw [findExp]
+    by_cases hq : qOf num den e < 9007199254740992
+    · rw [if_pos hq]; exact ⟨Int.le_refl _, by omega, fun _ => hq, by intro x h1 h2; omega⟩
+    · rw [if_neg hq]
+      obtain ⟨a, b, c, d⟩ := ih (e + 1)
+      refine ⟨by omega, by omega, ?_, ?_⟩
+      · intro h; exact c (by omega)
+      · intro x h1 h2
+        by_cases hx : x = e
+        · rw [hx]; omega
+        · exact d x (by omega) h2
+
+/-- the exponent `roundToDbl` rounds at is the exponent of the binary64 grid at `num / den` (unless the value overflows):
+    at least -1074, the scaled value has at most 53 bits, and - except on the subnormal grid - one binade lower it has more -/
+theorem pickExp_grid (num den : Nat) (h : pickExp num den ≤ 971) :
+    -1074 ≤ pickExp num den ∧ qOf num den (pickExp num den) < 9007199254740992 ∧
+      (pickExp num den = -1074 ∨ 9007199254740992 ≤ qOf num den (pickExp num den - 1)) := by
+  unfold pickExp at h ⊢
+  by_cases hok : expOk num den (expHint num den) = true
+  · rw [if_pos hok]
+    unfold expOk at hok
+    simp only [Bool.and_eq_true, Bool.or_eq_true, decide_eq_true_eq] at hok
+    exact ⟨hok.1.1, hok.1.2, hok.2⟩
+  · rw [if_neg hok] at h ⊢
+    obtain ⟨a, b, c, d⟩ := findExp_min num den 2048 (-1074)
+    refine ⟨a, c (by omega), ?_⟩
+    by_cases he : findExp num den 2048 (-1074) = -1074
+    · exact Or.inl he
+    · exact Or.inr (d _ (by omega) (by omega))
+
 /-! ### parsing `[-]digits.digits` -/
 theorem takeDigits_spec (ip rest : List Nat) (h : ∀ d ∈ ip, isDigit d = true)
     (hr : ∀ c tl, rest = c :: tl → isDigit c = false) : takeDigits (ip ++ rest) = (ip, rest) := by
@@ -216,11 +279,11 @@ theorem strtodT_exact : StrtodExact strtodT := by
       cases neg with
       | true =>
         have hs45 : isSpace 45 = false := by decide
-        simp only [if_true, List.cons_append, List.nil_append, skipSpace, hs45, Bool.false_eq_true, if_false]
+        simp only [if_true, List.cons_append, List.nil_append, skipSpace, hs45, Bool.false_eq_true, if_false, signSplit]
         rw [List.cons_append] at hhex hinf hnan
         simp only [hhex, hinf, hnan, Bool.false_eq_true, if_false]
       | false =>
-        simp only [Bool.false_eq_true, if_false, List.nil_append, List.cons_append, skipSpace, hsp,
+        simp only [Bool.false_eq_true, if_false, List.nil_append, List.cons_append, skipSpace, hsp, signSplit,
           if_neg (show ¬ d = 45 by omega), if_neg (show ¬ d = 43 by omega)]
         rw [List.cons_append] at hhex hinf hnan
         simp only [hhex, hinf, hnan, Bool.false_eq_true, if_false]
@@ -269,5 +332,75 @@ theorem strtodT_exact : StrtodExact strtodT := by
         have hk2 : (-((0 : Int) - (fp.length : Int))).toNat = fp.length := by omega
         rw [hk2]
         exact roundToDbl_exact neg _ _ m e (Nat.pow_pos (by decide)) hex hm he1 he2
+
+/-! ### the hexadecimal form is never produced by `%f` -/
+theorem lowerAscii_x (c : Nat) (h : lowerAscii c = 120) : c = 120 ∨ c = 88 := by
+  unfold lowerAscii at h
+  by_cases hc : 65 ≤ c ∧ c ≤ 90
+  · rw [if_pos hc] at h; omega
+  · rw [if_neg hc] at h; omega
+
+theorem isHexPrefix_has_x (r : List Nat) (h : isHexPrefix r = true) : ∃ c ∈ r, c = 120 ∨ c = 88 := by
+  match r, h with
+  | z :: c :: c2 :: tl, h =>
+    simp only [isHexPrefix, Bool.and_eq_true, beq_iff_eq] at h
+    exact ⟨c, by simp, lowerAscii_x c h.1.2⟩
+
+theorem mem_skipSpace (s : List Nat) (c : Nat) (h : c ∈ skipSpace s) : c ∈ s := by
+  induction s with
+  | nil => exact h
+  | cons d ds ih =>
+    rw [skipSpace] at h
+    by_cases hd : isSpace d = true
+    · rw [if_pos hd] at h; exact List.mem_cons_of_mem _ (ih h)
+    · rw [if_neg hd] at h; exact h
+
+theorem mem_signSplit (r : List Nat) (c : Nat) (h : c ∈ (signSplit r).2) : c ∈ r := by
+  cases r with
+  | nil => simp [signSplit] at h
+  | cons d t =>
+    unfold signSplit at h
+    by_cases h45 : d = 45
+    · simp only [h45, if_true] at h; exact List.mem_cons_of_mem _ h
+    · by_cases h43 : d = 43
+      · simp only [h43, if_true, show ¬ (43 : Nat) = 45 by decide, if_false] at h; exact List.mem_cons_of_mem _ h
+      · simp only [h45, h43, if_false] at h; exact h
+
+/-- `strtodM` answers `none` (hexadecimal form) only for a text containing `x` or `X` -/
+theorem strtodM_none_has_x (s : List Nat) (h : strtodM s = none) : ∃ c ∈ s, c = 120 ∨ c = 88 := by
+  unfold strtodM at h
+  simp only [] at h
+  by_cases hh : isHexPrefix (signSplit (skipSpace s)).2 = true
+  · obtain ⟨c, hc, hx⟩ := isHexPrefix_has_x _ hh
+    exact ⟨c, mem_skipSpace s c (mem_signSplit _ c hc), hx⟩
+  · rw [if_neg hh] at h
+    by_cases h1 : startsCI (signSplit (skipSpace s)).2 [105, 110, 102] = true
+    · rw [if_pos h1] at h; cases h
+    · rw [if_neg h1] at h
+      by_cases h2 : startsCI (signSplit (skipSpace s)).2 [110, 97, 110] = true
+      · rw [if_pos h2] at h; cases h
+      · rw [if_neg h2] at h; cases h
+
+theorem fmtF_no_x (x : Dbl) : ∀ c ∈ fmtF x, c ≠ 120 ∧ c ≠ 88 := by
+  intro c hc
+  cases x with
+  | fin neg m e =>
+    simp only [fmtF, List.mem_append] at hc
+    rcases hc with ((hc | hc) | hc) | hc
+    · cases neg <;> simp at hc; omega
+    · have := decDigits_digits _ c hc; omega
+    · simp at hc; omega
+    · have := pad6_digits _ c hc; omega
+  | inf neg =>
+    simp only [fmtF, List.mem_append] at hc
+    rcases hc with hc | hc
+    · cases neg <;> simp at hc; omega
+    · simp at hc; omega
+  | nan neg =>
+    simp only [fmtF, List.mem_append] at hc
+    rcases hc with hc | hc
+    · cases neg <;> simp at hc; omega
+    · simp at hc; omega
+
 
 end Nstd.Codec
